@@ -474,11 +474,10 @@ theorem lexRawFuel_rest (T : Tables) (hS : skipId T ≠ invalidId T) (hC : comme
 
 /-! ## line numbers -/
 
-/-- by how much a token advances the line: a COMMENT token by one (whether or
-not it ends in a newline), every other token — white space, and since the
-repair of the line bookkeeping also string literals — by its newlines -/
-def lineAdvance (T : Tables) (t : Tok) : Nat :=
-  if t.id == commentId T ∧ t.id ≠ skipId T then 1 else countNL t.text
+/-- by how much a token advances the line: by the newlines in its text (white
+space, comments — a comment ends with its newline, if it has one — and, since
+the repairs of the line bookkeeping, string literals) -/
+def lineAdvance (_T : Tables) (t : Tok) : Nat := countNL t.text
 
 theorem stepLoc_line2 (T : Tables) (l : Loc) (id : Nat) (text : Bytes) :
     effLine (stepLoc T l id text).2 = effLine l + lineAdvance T (stepLoc T l id text).1 := by
@@ -488,24 +487,14 @@ theorem stepLoc_line2 (T : Tables) (l : Loc) (id : Nat) (text : Bytes) :
     · exact skipLoc_line _ _ _
     · rfl
   unfold lineAdvance
-  rw [stepLoc_id, stepLoc_text]
+  rw [stepLoc_text]
   unfold stepLoc
   simp only
   split
-  · rename_i h1
-    have h1' : id = skipId T := by simpa using h1
-    simp only [effLine, Bool.false_eq_true, if_false, skipLoc_line, hp, h1', ne_eq, not_true_eq_false,
-      and_false]
-  · rename_i h1
-    have h1' : id ≠ skipId T := by simpa using h1
-    split
-    · rename_i h2
-      have h2' : id = commentId T := by simpa using h2
-      simp [effLine, hp, h2']
-      intro h; exact absurd (h2' ▸ h) h1'
-    · rename_i h2
-      have h2' : id ≠ commentId T := by simpa using h2
-      simp [effLine, hp, h2']
+  · simp only [effLine, Bool.false_eq_true, if_false, skipLoc_line, hp]
+  · split
+    · simp only [effLine, Bool.false_eq_true, if_false, skipLoc_line, hp]
+    · simp [effLine, hp]
 
 /-- **line numbers**: the line of every token is the start line plus the
 number of `\n` bytes in the non-comment tokens before it (white space and
@@ -568,5 +557,23 @@ theorem lexAllRaw_line (src : Bytes) (pre : List Tok) (t : Tok) (post : List Tok
 /-- non-vacuity: `in x\n#\n$` is IN, ID, then INVALID on line 3 (a comment and a newline before it) -/
 example : (lexAll [0x69, 0x6E, 0x20, 0x78, 0x0A, 0x23, 0x0A, 0x24]).map (fun t => (t.id, t.line, t.col)) =
     [(57354, 1, 1), (57378, 1, 4), (57348, 3, 1)] := by decide
+
+theorem countNL_append : ∀ (a b : Bytes), countNL (a ++ b) = countNL a + countNL b
+  | [], b => by simp [countNL]
+  | x :: a, b => by simp only [List.cons_append, countNL, countNL_append a b]; omega
+
+theorem sum_lineAdvance (T : Tables) : ∀ (pre : List Tok),
+    (pre.map (lineAdvance T)).sum = countNL (pre.map Tok.text).flatten
+  | [] => by simp [countNL]
+  | t :: pre => by
+    simp only [List.map_cons, List.sum_cons, List.flatten_cons, countNL_append, sum_lineAdvance T pre, lineAdvance]
+
+/-- **the reported line is the real line**: the line of every token is 1 + the
+number of newline bytes of the source before it (the texts of the tokens before
+it are, by `lexAllRaw_reconstructs`, exactly the source up to the token). -/
+theorem lexAllRaw_real_line (src : Bytes) (pre : List Tok) (t : Tok) (post : List Tok)
+    (h : (lexAllRaw src).1 = pre ++ t :: post) : t.line = 1 + countNL (pre.map Tok.text).flatten := by
+  rw [← sum_lineAdvance genTables pre]
+  exact lexAllRaw_line src pre t post h
 
 end Martian.Tokenizer
